@@ -17,7 +17,7 @@ from typing import Any, Dict, List, Optional, Tuple
 
 from . import algebra as A
 from .absint import (ALL_KINDS, BIN, LEAF, UN, AbsRaise, BoundExceeded, Ident, Interp, Node, Num, PathInfeasible,
-                     PathResult, Rec, _MISSING, explore, Halt)
+                     PathResult, Rec, _MISSING, explore, Halt, HistoryDependence)
 from .heapterm import HeapView, NeedKind, kind_assignments, SHORT
 from .model import Program
 from .report import AnalysisError, VERIF
@@ -81,7 +81,7 @@ def frontier(prog, body, config, depth: int) -> List[List[int]]:
         it.halt_depth = depth
         try:
             body(it)
-        except (AbsRaise, BoundExceeded, PathInfeasible, Halt, RecursionError):
+        except (AbsRaise, BoundExceeded, PathInfeasible, Halt, RecursionError, HistoryDependence):
             pass
         dec = [(c, k) for c, k, _ in it.decisions][:depth]
         out.append([c for c, _ in dec])
@@ -109,6 +109,8 @@ def explore_under(prog, body, config, root: List[int], max_paths: int = 40000) -
             results.append(PathResult(it, "raise", exc=r))
         except BoundExceeded as b:
             results.append(PathResult(it, "bound", note=str(b)))
+        except HistoryDependence as h:
+            results.append(PathResult(it, "history", note=str(h)))
         except PathInfeasible:
             pass
         except RecursionError:
@@ -258,6 +260,15 @@ def judge_path(prog: Program, S: Summaries, rname: str, opts: dict, p: PathResul
     base["impure"] = impure
     if p.outcome == "bound":
         base["outcome"] = "bound"
+        base["note"] = p.note
+        return [base]
+    if p.outcome == "history":
+        phase = "classify"
+        for e in it.events:
+            if e[0] == "phase":
+                phase = e[1]
+        base["outcome"] = "history"
+        base["phase"] = phase
         base["note"] = p.note
         return [base]
     if p.outcome == "raise":
